@@ -367,7 +367,7 @@ def end_to_end_c06(v, wd, r, tier):
     univ = adversarial_universe()
     hints = zone([], [rr([], "NS", "a.root.", ["a", "root"], ttl=3600), rr(["a", "root"], "A", "10.0.0.1", ttl=3600)], auth=False)
     scs = []
-    n = 300 if tier == "quick" else 8000
+    n = 300 if tier == "quick" else 3000
     for i in range(n):
         table = []
         for addr in ("10.0.0.1", "7.7.7.7", "9.9.9.9", "8.8.8.8"):
